@@ -177,12 +177,9 @@ def r6(fx):
     md = modes(fx)
     writers_ = ('write_segment', 'write_terminator', 'write_padding_bits', 'write_pad_codewords')
     cases = [(v_, l_, b_, None) for v_, l_, b_ in ((5, 'L', 'Q'), (-2, 'L', 'M'), (-3, None, None), (1, 'M', 'M'))]
+    from .models import stage_policy, BUFFER_STAGES
     real_stages = False
-    try:
-        trace_encode(fx, 5, 'L', 'Q')
-    except PyRaise as ex:
-        if ex.name != 'TypeError':
-            raise
+    if any(stage_policy(fx, n_) == 'real' for n_ in BUFFER_STAGES):
         # the stages hand something back that _encode uses (a running length, say): the stand-ins, which return nothing, cannot
         # take their place.  The repository's own stages then run on the model buffer, for segments of every mode (with and
         # without ECI header, with the Structured Append header), and the length each stage is told is compared with the
